@@ -28,6 +28,8 @@ def run(repo, rep):
     _memo_rule(repo, rep, 'C19', 'C19.Z1')
     from ..pitfalls import log_rule as _log_rule
     _log_rule(repo, rep, 'C19', 'C19.Z2')
+    from ..pitfalls import zero_rule as _zero_rule
+    _zero_rule(repo, rep, 'C19', 'C19.Z3')
     rep.trust('C18 for the pending classification; CPython generator semantics')
     rep.rule('C19.U1', 'C-GET user: a received C-STORE request is answered exactly once on the context it arrived on and yields '
              'at most once; the loop is left only on a non-pending C-GET response', 1)
